@@ -118,6 +118,15 @@ const PROGRAMS: [(&str, Option<&str>); 12] = [
     ("function g(): any { throw new RangeError(\"x\" + \"é\".repeat(150) + \"日\".repeat(40)); } g();", None),
 ];
 
+/// Further programs, selected by Prepare(_, p) with p >= 240 (the first table keeps its indices so
+/// that stored witnesses keep their meaning). Index in `prepared` = 100 + position.
+const PROGRAMS_EXTRA: [(&str, Option<&str>); 2] = [
+    // a host function called directly (during run/step) and from a promise handler that runs while
+    // the host settles the promise: both calls must behave alike
+    ("import { order } from \"tsrun:host\"; const f: any = globalThis.cb; const call = (): string => { try { return typeof f === \"function\" ? \"r:\" + JSON.stringify([f(1, \"x\", { a: 1 })]) : \"nocb\"; } catch (e: any) { return \"threw:\" + String(e && e.message !== undefined ? e.message : e); } }; const direct: string = call(); const p: any = order({ k: 1 }); let seen: string = \"handler did not run\"; if (p && typeof p.then === \"function\") { p.then((v: any) => { seen = call(); }); const r: any = await p; seen === direct ? \"same\" : \"differ:\" + direct + \" / \" + seen } else { \"same (order answered with a plain value)\" }", None),
+    ("import { order } from \"tsrun:host\"; const ms: any[] = [{ k: 1 }, { k: 2 }].map(order); const junk: any[] = []; for (let i = 0; i < 30; i++) { junk.push({ i: i }); } const out: any[] = []; for (const m of ms) { out.push(await m); } JSON.stringify(out.map((x: any) => x === undefined ? null : x))", None),
+];
+
 #[derive(Clone)]
 struct H {
     ptr: *mut TsRunValue,
@@ -413,8 +422,19 @@ impl<'a> Exec<'a> {
                                 "s:{}",
                                 serde_json::to_string(&json!([st.expected_answers[0].1, st.expected_answers[1].1])).unwrap_or_default()
                             )),
+                            101 if st.expected_answers.len() >= 2 => Some(format!(
+                                "s:{}",
+                                serde_json::to_string(&json!([st.expected_answers[0].1, st.expected_answers[1].1])).unwrap_or_default()
+                            )),
                             _ => None,
                         };
+                        if pi == 100 && !shown.starts_with("s:same") {
+                            self.fail(
+                                "host_function_behaves_differently_inside_promise_handler",
+                                shown.chars().take(200).collect(),
+                                json!({"program": pi, "observed": shown}),
+                            );
+                        }
                         if let Some(e) = expected {
                             let norm = |s: &str| s.strip_prefix("s:").and_then(|j| serde_json::from_str::<Value>(j).ok());
                             if norm(&shown) != norm(&e) {
@@ -545,8 +565,13 @@ impl<'a> Exec<'a> {
                 Op::Prepare(c, p) => {
                     if let Some(c) = self.live_ctx(*c) {
                         self.recheck_error(c);
-                        let pi = *p as usize % PROGRAMS.len();
-                        let (src, path) = PROGRAMS[pi];
+                        let (pi, (src, path)) = if *p >= 240 {
+                            let k = (*p as usize - 240) % PROGRAMS_EXTRA.len();
+                            (100 + k, PROGRAMS_EXTRA[k])
+                        } else {
+                            let k = *p as usize % PROGRAMS.len();
+                            (k, PROGRAMS[k])
+                        };
                         let code = self.c(src);
                         let pth = path.map(|x| self.c(x)).unwrap_or(ptr::null());
                         let r = tsrun_prepare(self.ctxs[c].ptr, code, pth);
@@ -1243,7 +1268,7 @@ impl<'a> Exec<'a> {
                                 let resp = TsRunOrderResponse { id, value: ptr::null_mut(), error: e };
                                 let r = tsrun_fulfill_orders(ctx, &resp, 1);
                                 self.unit_result(c, r, "tsrun_fulfill_orders", false);
-                                self.ctxs[c].prepared = self.ctxs[c].prepared.filter(|p| *p != 1 && *p != 2);
+                                self.ctxs[c].prepared = self.ctxs[c].prepared.filter(|p| *p != 1 && *p != 2 && *p != 101);
                             }
                             2 => {
                                 let pr = tsrun_create_order_promise(ctx, id);
@@ -1254,6 +1279,8 @@ impl<'a> Exec<'a> {
                                     self.unit_result(c, r, "tsrun_fulfill_orders", false);
                                     self.ctxs[c].promises.push((hi, false, id));
                                     self.ctxs[c].expected_answers.push((id, json!({"late": id})));
+                                    // KF-C07-6 (open): a marker answered with a promise yields the promise when awaited
+                                    self.ctxs[c].prepared = self.ctxs[c].prepared.filter(|p| *p != 101);
                                 }
                             }
                             _ => {
@@ -1497,7 +1524,7 @@ impl<'a> Exec<'a> {
                                 let e = self.c("late failure");
                                 let r = tsrun_reject_promise(ctx, self.hs[hi].ptr, e);
                                 self.unit_result(c, r, "tsrun_reject_promise", false);
-                                self.ctxs[c].prepared = self.ctxs[c].prepared.filter(|p| *p != 1 && *p != 2);
+                                self.ctxs[c].prepared = self.ctxs[c].prepared.filter(|p| *p != 1 && *p != 2 && *p != 101);
                             }
                         }
                     }
@@ -1521,7 +1548,7 @@ pub fn generate_history(rng: &mut Rng) -> Scn {
         ops.push(match rng.weighted(&w) {
             0 => Op::NewCtx,
             1 => Op::FreeCtx(a),
-            2 => Op::Prepare(a, c),
+            2 => Op::Prepare(a, if d % 4 == 0 { 240 + (c % 16) } else { c }),
             3 => Op::Run(a),
             4 => Op::Steps(a, 1 + b % 300),
             5 => Op::MkPrim(a, c),
